@@ -382,7 +382,7 @@ func init() {
 	register(&Prop{
 		ID: "C07", Level: "model_checking",
 		Technique:   "stateless model checking of SendBatch on the real client over a simulated cluster: every per-call outcome script x re-location / cancellation event x event position x schedules up to a deviation bound",
-		Rule:        "units = layout {two servers, one shared connection} x batch {1, 2 (two regions), 3 calls (two in one region)} x per-call outcome sequence over {fatal, retry-later, not-serving, connection-dead}* then success (all sequences of length <=2 for two calls, <=1-2 for three, <=3 for one) x event {none, cancel, table dropped (re-location fails), meta silent then cancel (re-location blocks), client closed} fired after the k-th user operation reached a server; schedules with <=1 (thorough 2) deviations where an event thread exists. Oracle: res[i] describes call i only - a call some server executed has its own payload and nil error, no result mixes a response with an error or carries another call's scripted error, every result is non-empty, allOK iff all errors are nil. Non-trivial = non-empty scripts or events.",
+		Rule:        "units = layout {two servers, one shared connection} x batch {1, 2 (two regions), 3 calls (two in one region)} x per-call outcome sequence over {fatal, retry-later, not-serving, connection-dead}* then success (all sequences of length <=2 for two calls, <=1-2 for three, <=3 for one) x event {none, cancel, table dropped (re-location fails), meta silent then cancel (re-location blocks), client closed} fired after the k-th user operation reached a server; schedules with <=1 (thorough 2) deviations where an event thread exists. Oracle: res[i] describes call i only - a call some server executed has its own payload and nil error, no result mixes a response with an error or carries another call's scripted error, every result is non-empty, allOK iff all errors are nil. Non-trivial = non-empty scripts or events. Additionally cancel / Close at EVERY scheduling step of a thread running client code inside SendBatch for the two-call batches with <=2 script letters in total (thorough: all) (vrt.AwaitFirst: the event's thread becomes the default choice at that step, so its position is a parameter of the unit and costs no deviation).",
 		Assumptions: []string{"tier L: simulated region clients deliver results per call as the real multi does"},
 		Quick:       150 * time.Second, Thorough: 25 * time.Minute,
 		Units: c07Units,
